@@ -193,9 +193,22 @@ class MultiFit(FitBase):
         _y_data_names = []
         _y_model_names = []
         _y_cov_mat_names = []
+        _constraint_cost_names = []
         for _i, _fit_i in enumerate(self._fits):
             if _fit_i._cost_function.is_chi2:
                 _fit_index_to_data_index[_i] = len(_data_indices) - 1
+                # The shared cost function replaces the cost function of this fit, which is the
+                # one that adds the cost of the constraints of this fit: add it separately.
+                _constraint_cost_name = "constraint_cost%s" % _i
+                self._nexus.add(
+                    Function(
+                        func=lambda constraints, parameter_values: np.sum([_c.cost(parameter_values) for _c in constraints]),
+                        name=_constraint_cost_name,
+                        parameters=[_fit_i._nexus.get("parameter_constraints"), _fit_i._nexus.get("parameter_values")],
+                    ),
+                    add_children=False,
+                )
+                _constraint_cost_names.append(_constraint_cost_name)
                 _data_indices.append(_data_indices[-1] + _fit_i.data_size)
 
                 _x_cov_mat_name = "x_cov_mat%s" % _i
@@ -354,6 +367,7 @@ class MultiFit(FitBase):
         )
         _cost_functions.append(self._shared_cost_function)
         _cost_names.append(self._shared_cost_function.name)
+        _cost_names += _constraint_cost_names
         self._cost_function = MultiCostFunction(singular_cost_functions=_cost_functions, cost_function_names=_cost_names)
         self._nexus.add_function(
             func=self._cost_function,
@@ -653,6 +667,9 @@ class MultiFit(FitBase):
         _gof_sum = 0.0
         for _fit in self._fits:
             if self._shared_error_nodes_initialized and _fit._cost_function.is_chi2:
+                # data and model are part of the shared cost function, the constraints are not
+                for _parameter_constraint in _fit._fit_param_constraints:
+                    _gof_sum += _parameter_constraint.cost(_fit.parameter_values)
                 continue
             _gof = _fit.goodness_of_fit
             if _gof is None:
